@@ -77,49 +77,50 @@ Theorem unsupported_rejects s l : (forall name, ~ supported name l) -> CheckMnem
 Proof. intros Hn. rewrite (CheckMnemonicL_unsupported lib s l Hn). apply nil_map_rejects. Qed.
 
 (* ---------- C10 ---------- *)
-Theorem same_nfkd_same_verdict s1 s2 l : nfkd s1 = nfkd s2 ->
+Theorem same_nfkd_same_verdict s1 s2 l : utf8_valid s1 = true -> utf8_valid s2 = true -> nfkd s1 = nfkd s2 ->
   (CheckMnemonicL lib s1 l = Ret None <-> CheckMnemonicL lib s2 l = Ret None).
 Proof.
-  intros E. destruct (classic_supported l) as [[name Hs]|Hn].
+  intros V1 V2 E. destruct (classic_supported l) as [[name Hs]|Hn].
   - rewrite !(CheckMnemonicL_canon lib _ name l Hs).
-    exact (same_nfkd_same_result (canon name) (canon_ok name l Hs) lib Hlib s1 s2 E).
+    exact (same_nfkd_same_result (canon name) (canon_ok name l Hs) lib Hlib s1 s2 V1 V2 E).
   - split; intros H; exfalso; exact (unsupported_rejects _ l Hn H).
 Qed.
 
 (* ---------- C15 ---------- *)
 (* inside xsafe the implementation's tokens are those of the NFKD form, and the result is the
    specification's classification of them *)
-Theorem classification name l s : supported name l -> xsafe s = true ->
+Theorem classification name l s : supported name l -> utf8_valid s = true -> xsafe s = true ->
   CheckMnemonicL lib s l =
   Ret (err_of_verdict (classify sha256 (tbl_get (canon name)) (split_at (fun b => Byte.eqb b x20) (nfkd s)))).
 Proof.
-  intros Hs X. rewrite (CheckMnemonicL_canon lib s name l Hs).
+  intros Hs V X. rewrite (CheckMnemonicL_canon lib s name l Hs).
   rewrite (CheckMnemonic_spec lib (tbl_get (canon name)) (tbl_get_bound _ (canon_ok name l Hs))).
-  rewrite (LC1 _ Hlib s X). reflexivity.
+  rewrite (LC1 _ Hlib s V X). reflexivity.
 Qed.
 
-Lemma tokens_length s : length (split_at (fun b => Byte.eqb b x20) (lib s)) = length (split_at (fun b => Byte.eqb b x20) (nfkd s)).
-Proof. rewrite !count_sp_split, (LC3 _ Hlib s). reflexivity. Qed.
+Lemma tokens_length s : utf8_valid s = true ->
+  length (split_at (fun b => Byte.eqb b x20) (lib s)) = length (split_at (fun b => Byte.eqb b x20) (nfkd s)).
+Proof. intros V. rewrite !count_sp_split, (LC3 _ Hlib s V). reflexivity. Qed.
 
 (* the word-count verdict does not even need xsafe: the library keeps the number of 0x20 bytes *)
-Theorem wrong_count name l s : supported name l ->
+Theorem wrong_count name l s : supported name l -> utf8_valid s = true ->
   ~ valid_wc (length (split_at (fun b => Byte.eqb b x20) (nfkd s))) -> CheckMnemonicL lib s l = Ret (Some ErrWordLen).
 Proof.
-  intros Hs Hn. rewrite (CheckMnemonicL_canon lib s name l Hs).
+  intros Hs V Hn. rewrite (CheckMnemonicL_canon lib s name l Hs).
   rewrite (CheckMnemonic_spec lib (tbl_get (canon name)) (tbl_get_bound _ (canon_ok name l Hs))).
-  unfold classify. rewrite tokens_length.
-  destruct (valid_wc_b _) eqn:V; [apply valid_wc_b_spec in V; contradiction|reflexivity].
+  unfold classify. rewrite (tokens_length s V).
+  destruct (valid_wc_b _) eqn:W; [apply valid_wc_b_spec in W; contradiction|reflexivity].
 Qed.
 
 (* outside xsafe with an acceptable count: an unknown-word error naming a token that is not in the list *)
-Theorem outside_xsafe name l s : supported name l -> xsafe s = false ->
+Theorem outside_xsafe name l s : supported name l -> utf8_valid s = true -> xsafe s = false ->
   valid_wc (length (split_at (fun b => Byte.eqb b x20) (nfkd s))) ->
   exists t i, CheckMnemonicL lib s l = Ret (Some (ErrUnknownWord t i)) /\ ~ In t (canon name).
 Proof.
-  intros Hs X Hv. rewrite (CheckMnemonicL_canon lib s name l Hs).
+  intros Hs V X Hv. rewrite (CheckMnemonicL_canon lib s name l Hs).
   pose proof (canon_ok name l Hs) as Hok.
   rewrite (CheckMnemonic_spec lib (tbl_get (canon name)) (tbl_get_bound _ Hok)). unfold classify.
-  rewrite tokens_length. rewrite (proj2 (valid_wc_b_spec _) Hv). cbn [negb].
+  rewrite (tokens_length s V). rewrite (proj2 (valid_wc_b_spec _) Hv). cbn [negb].
   destruct (first_unknown (tbl_get (canon name)) _ 0) as [[t i]|] eqn:F.
   - exists t, i. split; [reflexivity|]. clear -F.
     revert F. generalize 0%nat. induction (split_at _ (lib s)) as [|x r IH]; intros k F; cbn [first_unknown] in F; [discriminate|].
@@ -131,19 +132,20 @@ Proof.
     assert (K : has_cgj (lib s) = false).
     { rewrite <- (join_split (lib s)). apply has_cgj_join. eapply Forall_impl; [|exact Hin]. cbn. intros w Hw.
       exact (wok_nocgj _ (tok_words _ Hok _ Hw)). }
-    rewrite (LC2 _ Hlib s X) in K. discriminate.
+    rewrite (LC2 _ Hlib s V X) in K. discriminate.
 Qed.
 End Lib.
 
 (* ---------- C10: every spelling whose NFKD form is a valid sentence is accepted ---------- *)
-Theorem valid_spelling_accepted lib (Hlib : lib_contract lib) name l idx s : supported name l ->
+Theorem valid_spelling_accepted lib (Hlib : lib_contract lib) name l idx s : supported name l -> utf8_valid s = true ->
   valid_wc (length idx) -> Forall (fun i => i < 2048) idx -> checksum_okb sha256 idx = true ->
   nfkd s = join [x20] (map (word_at (canon name)) idx) ->
   CheckMnemonicL lib s l = Ret None.
 Proof.
-  intros Hs Hwc Hb Hcs E.
+  intros Hs V Hwc Hb Hcs E.
   pose proof (all_valid_accepted lib Hlib name l [x20] 0x20 idx Hs is_sep_space Hwc Hb Hcs) as H.
-  apply (same_nfkd_same_verdict lib Hlib s (join [x20] (map (word_at (canon name)) idx)) l); [|exact H].
+  apply (same_nfkd_same_verdict lib Hlib s (join [x20] (map (word_at (canon name)) idx)) l); [exact V| |  |exact H].
+  { apply (valid_join [x20] 0x20); [apply is_sep_space|]. apply (words_of_indices_ok _ (canon_ok name l Hs)). exact Hb. }
   rewrite E. symmetry. apply (nfkd_join [x20] 0x20); [apply is_sep_space|].
   apply (words_of_indices_ok _ (canon_ok name l Hs)). exact Hb.
 Qed.
@@ -165,11 +167,11 @@ Qed.
 
 (* ---------- C11: U+3000 vs U+0020 between list words ---------- *)
 Theorem seed_separators lib (Hlib : lib_contract lib) (tbl : list (list byte)) (idx : list N) (p : list byte) :
-  table_ok tbl = true -> Forall (fun i => i < 2048) idx -> xsafe p = true ->
+  table_ok tbl = true -> Forall (fun i => i < 2048) idx -> utf8_valid p = true -> xsafe p = true ->
   MnemonicToSeed lib (join u3000 (map (word_at tbl) idx)) p = MnemonicToSeed lib (join [x20] (map (word_at tbl) idx)) p.
 Proof.
-  intros Htbl Hb Xp. pose proof (words_of_indices_ok tbl Htbl idx Hb) as Hws.
-  apply (seed_same_nfkd lib Hlib); [|reflexivity| |exact Xp].
+  intros Htbl Hb Vp Xp. pose proof (words_of_indices_ok tbl Htbl idx Hb) as Hws.
+  apply (seed_same_nfkd lib Hlib); [exact (valid_join _ _ _ is_sep_u3000 Hws)|exact Vp|exact (valid_join _ _ _ is_sep_space Hws)|exact Vp| |reflexivity| |exact Xp].
   - rewrite (nfkd_join _ _ _ is_sep_u3000 Hws), (nfkd_join _ _ _ is_sep_space Hws). reflexivity.
   - exact (xsafe_sentence _ _ _ is_sep_u3000 Hws).
 Qed.
